@@ -280,6 +280,83 @@ fn tail_key(tail: &[L]) -> bool {
     tail.iter().any(|a| matches!(a, L::Mi | L::Sha))
 }
 
+/// Every public way of constructing a text attribute from the same text - `new`, `TryFrom<&str>`, `TryFrom<&String>`,
+/// `TryFrom<String>` - gives the same verdict and, when accepted, the same value (by accessor and by the type's own equality),
+/// and the message carrying it encodes and decodes back to it.
+fn constructor_routes(rep: &mut Report) {
+    use std::convert::TryFrom;
+    use stun_rs::attributes::stun::{Nonce, Realm, Software, UserName};
+    use stun_rs::StunAttribute;
+    let mut texts: Vec<String> = menu::QUOTED_FORMS.iter().map(|s| s.to_string()).collect();
+    texts.extend(["", "a", "ab", "example.org", "a b", "\u{c3}\u{a9}", "x\u{a0}y", "e\u{301}", "a\\\"b", "abc\\ ", "\u{30de}\u{30c8}\u{30ea}\u{30c3}\u{30af}\u{30b9}"].iter().map(|s| s.to_string()));
+    for n in [127usize, 508, 509, 510, 763, 764] {
+        texts.push(menu::rep('a', n));
+        texts.push(format!("{} ", menu::rep('a', n)));
+    }
+    for t in &texts {
+        macro_rules! routes {
+            ($ty:ident, $kind:expr) => {{
+                let rs: Vec<(&str, Result<StunAttribute, String>)> = vec![
+                    ("new(&str)", $ty::new(t.as_str()).map(Into::into).map_err(|e| format!("{}", e))),
+                    ("new(String)", $ty::new(t.clone()).map(Into::into).map_err(|e| format!("{}", e))),
+                    ("TryFrom<&str>", $ty::try_from(t.as_str()).map(Into::into).map_err(|e| format!("{}", e))),
+                    ("TryFrom<&String>", $ty::try_from(t).map(Into::into).map_err(|e| format!("{}", e))),
+                    ("TryFrom<String>", $ty::try_from(t.clone()).map(Into::into).map_err(|e| format!("{}", e))),
+                ];
+                ($kind, rs)
+            }};
+        }
+        let all: Vec<(&str, Vec<(&str, Result<StunAttribute, String>)>)> = match crate::util::guard(|| vec![routes!(Realm, "Realm"), routes!(Nonce, "Nonce"), routes!(UserName, "UserName"), routes!(Software, "Software")]) {
+            Ok(v) => v,
+            Err(p) => {
+                rep.violate(format!("constructor-panics/{}", crate::util::panic_site(&p)), p, json!({"text": t}));
+                continue;
+            }
+        };
+        for (kind, rs) in all {
+            rep.eval();
+            let inp = |route: &str| json!({"kind": "text-constructor", "type": kind, "route": route, "text": t});
+            let (_, canonical) = &rs[0];
+            for (route, r) in rs.iter().skip(1) {
+                match (canonical, r) {
+                    (Ok(a), Ok(b)) => {
+                        if from_subject(a) != from_subject(b) || cu::native_eq(a, b) == Some(false) {
+                            rep.violate(format!("construction-routes-disagree/{}/{}", kind, route), format!("{} vs {}", from_subject(b).show(), from_subject(a).show()), inp(route));
+                        }
+                    }
+                    (Err(_), Err(_)) => {}
+                    _ => rep.violate(format!("construction-routes-disagree/{}/{}/accepted-by-one-only", kind, route), "", inp(route)),
+                }
+            }
+            // whatever route built it: the message carrying it comes back
+            for (route, r) in &rs {
+                let Ok(attr) = r else { continue };
+                rep.eval();
+                let msg = stun_rs::StunMessageBuilder::new(stun_rs::MessageMethod::try_from(1).unwrap(), stun_rs::MessageClass::Request)
+                    .with_transaction_id(stun_rs::TransactionId::from([3u8; 12]))
+                    .with_attribute(attr.clone())
+                    .build();
+                let held = from_subject(attr);
+                let want = menu::expected_decoded(&held);
+                match cu::encode_into(&msg, 2048, 0x5A) {
+                    Ok(Ok((n, b))) => match cu::decode_with(&cu::decoder(cu::Opts::default_ctx(), None), &b[..n]) {
+                        Ok(Ok((d, _))) if d.size == n && d.attrs.len() == 1 && d.attrs[0] == want => {
+                            rep.sym("constructor-routes");
+                            rep.nontrivial_by_construction();
+                        }
+                        other => rep.violate(
+                            format!("value-built-through-{}-does-not-come-back/{}", route, kind),
+                            format!("held {} decoded {:?}", held.show(), other.map(|r| r.map(|(d, _)| (d.attrs.iter().map(|a| a.show()).collect::<Vec<_>>(), d.size)))),
+                            inp(route),
+                        ),
+                    },
+                    other => rep.violate(format!("value-built-through-{}-does-not-encode/{}", route, kind), format!("{:?}", other.map(|r| r.map(|x| x.0))), inp(route)),
+                }
+            }
+        }
+    }
+}
+
 pub fn run(ctx: &RunCtx) -> i32 {
     let thorough = ctx.thorough();
     ALL_ENCODER_VARIANTS.store(thorough, std::sync::atomic::Ordering::Relaxed);
@@ -445,6 +522,11 @@ pub fn run(ctx: &RunCtx) -> i32 {
             r.sym_n("sweep-xor-ids", 1);
         }),
     ];
+    {
+        let mut r = Report::new();
+        constructor_routes(&mut r);
+        shared.merge(r);
+    }
     sweeps.par_iter().for_each(|f| {
         let mut r = Report::new();
         f(&mut r);
@@ -532,7 +614,7 @@ pub fn run(ctx: &RunCtx) -> i32 {
         Finish {
             level: "exploration",
             rule: format!(
-                "every message with 0..=2 body attributes over the {}-entry value menu in every order x 8 tails, every triple over the {}-entry menu x 2 tails, every header of the header menu on singles, full scalar sweeps (u16 fields, error codes 300..=699, 128x512 ICMP, string lengths 0..=509, blob lengths 0..=1024, all 16384 message types, XOR under 123 ids; as non-last and as last attribute: every blob length 0..=1030, every string length, a walking byte through every address byte of all 7 address attributes, every single-bit integer value and its complement, lists of every length 0..=8, UNKNOWN-ATTRIBUTES lists of every length up to 600 and of 1000 / 4096 / 16,384 / 32,760 entries, PASSWORD-ALGORITHMS lists of every length up to 200 and of 1000 / 4096 entries); deep messages without and with the full tail (every reduced-menu value at body offsets around 256 / 1024 / 4096 (thorough: 256..32768 in powers of two) behind one long filler and behind a run of 8-byte attributes, 3..=257 (thorough 1000) copies of 10 attributes, every rotation and reversal of one-value-per-kind, every 4-sequence over 9 kinds); the offset family (PRIORITY, and SOFTWARE + XOR-MAPPED-ADDRESS, behind a filler - one DATA blob or a run of 512-byte SOFTWARE attributes - at every 4-aligned body offset 0..=4200 (thorough 16,400), around every multiple of 4096 (thorough 1024) and at every offset 65,300..=65,532, without and with the full tail, bodies up to the 65,532-byte maximum); XOR-* addresses whose wire form is ::, ::1, ::ffff:a.b.c.d or all ones under 3 ids; clones of the attributes of the encoded message, re-issued under another transaction id, encode to that message's reference bytes; the message obtained from the decoder is encoded again and must give the same bytes (messages without integrity / fingerprint attributes); every message is additionally encoded under another encoder configuration (one encoder object reused for all messages / default context: same bytes; custom padding 0xA5 / random padding: same size, decodes and validates to the same content; quick tier one configuration per message chosen by a hash of its bytes, thorough all four); a case is non-trivial when it was built, encoded, decoded and compared equal (index tuples are distinct by construction)",
+                "every message with 0..=2 body attributes over the {}-entry value menu in every order x 8 tails, every triple over the {}-entry menu x 2 tails, every header of the header menu on singles, full scalar sweeps (u16 fields, error codes 300..=699, 128x512 ICMP, string lengths 0..=509, blob lengths 0..=1024, all 16384 message types, XOR under 123 ids; as non-last and as last attribute: every blob length 0..=1030, every string length, a walking byte through every address byte of all 7 address attributes, every single-bit integer value and its complement, lists of every length 0..=8, UNKNOWN-ATTRIBUTES lists of every length up to 600 and of 1000 / 4096 / 16,384 / 32,760 entries, PASSWORD-ALGORITHMS lists of every length up to 200 and of 1000 / 4096 entries); deep messages without and with the full tail (every reduced-menu value at body offsets around 256 / 1024 / 4096 (thorough: 256..32768 in powers of two) behind one long filler and behind a run of 8-byte attributes, 3..=257 (thorough 1000) copies of 10 attributes, every rotation and reversal of one-value-per-kind, every 4-sequence over 9 kinds); the offset family (PRIORITY, and SOFTWARE + XOR-MAPPED-ADDRESS, behind a filler - one DATA blob or a run of 512-byte SOFTWARE attributes - at every 4-aligned body offset 0..=4200 (thorough 16,400), around every multiple of 4096 (thorough 1024) and at every offset 65,300..=65,532, without and with the full tail, bodies up to the 65,532-byte maximum); XOR-* addresses whose wire form is ::, ::1, ::ffff:a.b.c.d or all ones under 3 ids; every public construction route of the four text attributes (new from &str / String, TryFrom<&str>, <&String>, <String>) on 30-odd texts incl. white space around the text, the quoted forms and the length limits: same verdict, same value, and the message carrying it comes back; clones of the attributes of the encoded message, re-issued under another transaction id, encode to that message's reference bytes; the message obtained from the decoder is encoded again and must give the same bytes (messages without integrity / fingerprint attributes); every message is additionally encoded under another encoder configuration (one encoder object reused for all messages / default context: same bytes; custom padding 0xA5 / random padding: same size, decodes and validates to the same content; quick tier one configuration per message chosen by a hash of its bytes, thorough all four); a case is non-trivial when it was built, encoded, decoded and compared equal (index tuples are distinct by construction)",
                 n_full, n_tri
             ),
             assumptions: vec![
@@ -540,7 +622,7 @@ pub fn run(ctx: &RunCtx) -> i32 {
                 "USERNAME is compared after OpaqueString enforcement (hand-written R-strings table)".into(),
                 "PASSWORD-ALGORITHM with empty parameters and with no parameters are the same logical value".into(),
             ],
-            required_symbols: vec!["deep-messages", "offset-family", "xor-special-addresses", "sweep-u16", "sweep-message-types", "sweep-non-last-lengths-addresses-bits-lists", "key-menu", "Nonce", "XorMappedAddress", "Icmp"],
+            required_symbols: vec!["deep-messages", "offset-family", "xor-special-addresses", "sweep-u16", "sweep-message-types", "sweep-non-last-lengths-addresses-bits-lists", "key-menu", "Nonce", "XorMappedAddress", "Icmp", "constructor-routes"],
             min_outcomes: 2,
             exhaustive: true,
             bounds: json!({"L_full_menu": 2, "L_triples_menu": n_tri, "menu": n_full, "tails": 8}),
